@@ -138,7 +138,7 @@ def programs(draw, literal_conds=True, dead_code=True):
     names = NAMES[:nv]
     # type discipline: mono = every variable keeps one type (so only 'undefined' problems),
     # mixed = each assignment draws its type
-    mono = draw(st.integers(0, 9)) < 3
+    mono = draw(st.integers(0, 9)) < 2
     fixed = {v: draw(st.sampled_from(TYPES)) for v in names} if mono else None
     budget = [draw(st.integers(5, MAX_STMTS - nv))]
     ndefs = [0]
@@ -218,7 +218,7 @@ def programs(draw, literal_conds=True, dead_code=True):
 
     ir = []
     # optional prologue of assignments (otherwise nearly every free read would be undefined)
-    pro = draw(st.sampled_from([0, 4, 10, 10, 10, 10] if not mono else [0, 4, 4, 4, 10]))
+    pro = draw(st.sampled_from([0, 0, 4, 10, 10, 10] if not mono else [0, 4, 4, 4, 10]))
     for v in names:
         if draw(st.integers(0, 9)) < pro and budget[0] > 1:
             budget[0] -= 1
